@@ -94,10 +94,33 @@ def _gen_pool(r):
         else:
             vals = [r.choice([3, 7, 20])] * n
         bases.append(vals)
+    hints = {}
+    if r.random() < 0.45:
+        # items that admit a perfect packing into bins of size B (first-fit / best-fit decreasing often miss it,
+        # so the exact packers really have to search)
+        B = r.choice([10, 12, 20, 30, 50, 100])
+        vals = []
+        for _ in range(r.randint(2, 4)):
+            left = B
+            parts = []
+            for _ in range(r.randint(1, 3)):
+                if left <= 1:
+                    break
+                x = r.randint(1, max(1, left - 1))
+                parts.append(x)
+                left -= x
+            if left > 0:
+                parts.append(left)
+            vals += parts
+        r.shuffle(vals)
+        vals = vals[:13]
+        hints[len(bases)] = B
+        bases.append(vals)
     cid = 0
-    name_sets = [[f"a{j}" for j in range(8)], [f"b{j}" for j in range(8)]]
-    for vals in bases:
+    name_sets = [[f"a{j}" for j in range(14)], [f"b{j}" for j in range(14)]]
+    for bi, vals in enumerate(bases):
         forms = r.sample(["list", "ndarray", "dict", "names", "list2", "dict_samekeys"], r.randint(1, 3))
+        first_new = len(pool)
         for f in forms:
             if f in ("list", "list2"):
                 pool.append({"id": cid, "form": "list", "values": list(vals)})          # equal lists in distinct objects
@@ -116,6 +139,9 @@ def _gen_pool(r):
                 names = r.choice(name_sets)[:len(vals)]
                 pool.append({"id": cid, "form": "names", "names": names, "values": list(vals)})
             cid += 1
+        if bi in hints:
+            for c in pool[first_new:]:
+                c["binsize_hint"] = hints[bi]
     return pool
 
 
@@ -139,6 +165,8 @@ def _gen_call(r, pool, cfg, p_fault, focus=None):
         if forced:
             algo = forced
         k = r.choices([1, 2, 3, 4, 5], weights=[6, 40, 32, 16, 6])[0]
+        if n > 8 and algo not in ("greedy", "roundrobin", "multifit", "kk", "balanced", "cbldm", "cg"):
+            algo = r.choice(["greedy", "roundrobin", "multifit", "kk", "balanced", "cbldm", "cg"])     # keep big containers cheap
         if algo in ("snp", "rnp"):
             k = r.choice([2, 3, 3, 4, 5]) if n <= 7 else r.choice([2, 3])
         if algo == "dp":
@@ -148,9 +176,20 @@ def _gen_call(r, pool, cfg, p_fault, focus=None):
             if r.random() < 0.5:
                 op["kwargs"]["partition_difference"] = r.choice([1, 1, 2, 3, 0])    # 0 is a natural refusal
         if algo in ("cg", "dp", "ilp"):
-            op["kwargs"]["objective"] = r.choice(["diff", "max", "min"] + (["kmin:2", "kmax:2"] if algo != "cg" else []))
-        if algo == "cg" and r.random() < 0.4:
+            # objective objects are caller-owned and SHARED by all calls of the history that name them
+            op["kwargs"]["objective"] = r.choice(["diff", "max", "min"] + (["kmin:2", "kmax:2", "kmin:3", "kmax:3", "kmin:1"] if algo != "cg" else []))
+        if algo == "cg" and n > 8:
+            op["kwargs"]["switches"] = [True, True, False, True]
+        elif algo == "cg" and r.random() < 0.4:
             op["kwargs"]["switches"] = [r.random() < 0.6, r.random() < 0.6, r.random() < 0.3, r.random() < 0.6]
+        if algo == "ilp":
+            # ILP options; an unsatisfiable extra constraint is a natural failed call (ValueError)
+            if r.random() < 0.35:
+                tot = sum(vals)
+                op["kwargs"]["constraint"] = {"kind": r.choice(["mineq", "maxle", "minge"]),
+                                              "c": r.choice([0, 1, tot // max(k, 1), tot, tot + 1, -1, r.randint(0, max(1, tot))])}
+            if r.random() < 0.25:
+                op["kwargs"]["copies"] = r.choice([1, 2, 2, 0])
         if algo == "multifit" and r.random() < 0.3:
             op["kwargs"]["iterations"] = r.choice([1, 3, 10, 20])
         op.update({"fn": "partition", "algo": algo, "param": k})
@@ -160,6 +199,8 @@ def _gen_call(r, pool, cfg, p_fault, focus=None):
         mx = max(vals) if vals else 1
         if r.random() < 0.12:
             binsize = max(1, mx - r.randint(1, max(1, mx // 2))) if mx > 1 else 0.5      # an oversize item: natural refusal
+        elif c.get("binsize_hint") and r.random() < 0.75:
+            binsize = c["binsize_hint"]
         else:
             binsize = r.choice([mx, mx + 1, mx + r.randint(0, mx + 3), sum(vals) or 1, 2 * mx + 1])
         op.update({"fn": "pack", "algo": algo, "param": binsize, "out": r.choice(OUTS)})
@@ -200,6 +241,14 @@ def _gen_call(r, pool, cfg, p_fault, focus=None):
     return op
 
 
+def _gen_edit(r, pool):
+    """The caller changes one of its own containers between two calls."""
+    c = r.choice(pool)
+    kind = r.choice(["set", "set", "set", "append", "pop"])
+    e = {"op": "edit", "pool": c["id"], "kind": kind, "pos": r.randrange(16), "value": r.choice([0, 1, 5, 17, 40, 123, 300])}
+    return e
+
+
 def gen_plan(seed, tier):
     cfg = TIERS[tier]
     r = core.rng(seed, "c15-swarm")
@@ -214,12 +263,19 @@ def gen_plan(seed, tier):
                  "pool": r.choice(pool)["id"] if r.random() < 0.6 else None}
         if focus["algo"] == "ilp" and r.random() < 0.7:
             focus["algo"] = r.choice(["cg", "dp", "snp", "rnp", "ckk", "cbldm"])
+    p_edit = r.choice([0.0, 0.0, 0.08, 0.2])
     for i in range(nops):
+        if ops and r.random() < p_edit:
+            ops.append(_gen_edit(r, pool))
+            continue
         if ops and r.random() < p_repeat:
             j = r.randrange(len(ops))
             while ops[j]["op"] == "repeat":
                 j = ops[j]["of"]
-            ops.append({"op": "repeat", "of": j})
+            if ops[j]["op"] == "edit":
+                ops.append(_gen_call(r, pool, cfg, p_fault, focus))
+            else:
+                ops.append({"op": "repeat", "of": j})
         else:
             ops.append(_gen_call(r, pool, cfg, p_fault, focus))
     return {"prop": "C15", "pool": pool, "ops": ops}
@@ -274,12 +330,58 @@ class _Env:
                 "cover_dec": cv.decreasing, "twothirds": cv.twothirds, "threequarters": cv.threequarters}[name]
 
     def _objective(self, name):
+        """Objective objects are caller-owned: one object per name for the whole history (interpreter)."""
         from prtpy import objectives as obj
-        if name.startswith("kmin:"):
-            return obj.MaximizeKSmallestSums(int(name[5:]))
-        if name.startswith("kmax:"):
-            return obj.MinimizeKLargestSums(int(name[5:]))
-        return {"diff": obj.MinimizeDifference, "max": obj.MinimizeLargestSum, "min": obj.MaximizeSmallestSum}[name]
+        if not hasattr(self, "_objs"):
+            self._objs = {}
+        if name not in self._objs:
+            if name.startswith("kmin:"):
+                self._objs[name] = obj.MaximizeKSmallestSums(int(name[5:]))
+            elif name.startswith("kmax:"):
+                self._objs[name] = obj.MinimizeKLargestSums(int(name[5:]))
+            else:
+                self._objs[name] = {"diff": obj.MinimizeDifference, "max": obj.MinimizeLargestSum, "min": obj.MaximizeSmallestSum}[name]
+        return self._objs[name]
+
+    def apply_edit(self, e):
+        """The caller changes its own container between two calls (never during one)."""
+        import numpy as np
+        cid = e["pool"]
+        obj = self.pool[cid]
+        form = self.forms[cid]
+        kind, pos, value = e["kind"], e["pos"], e["value"]
+        if form == "list":
+            if kind == "append":
+                obj.append(value)
+            elif kind == "pop" and len(obj) > 1:
+                obj.pop(pos % len(obj))
+            elif len(obj) > 0:
+                obj[pos % len(obj)] = value
+        elif form == "ndarray":
+            if len(obj) > 0:
+                obj[pos % len(obj)] = value
+        elif form == "dict":
+            keys = list(obj.keys())
+            if kind == "append":
+                obj["z%d" % pos] = value
+            elif kind == "pop" and len(keys) > 1:
+                del obj[keys[pos % len(keys)]]
+            elif keys:
+                obj[keys[pos % len(keys)]] = value
+        else:
+            vm = self.vmaps[cid]
+            if kind == "append":
+                nm = "z%d" % pos
+                if nm not in vm:
+                    obj.append(nm)
+                vm[nm] = value
+            elif kind == "pop" and len(obj) > 1:
+                obj.pop(pos % len(obj))
+            elif obj:
+                vm[obj[pos % len(obj)]] = value
+        self.pristine[cid] = core.jdump(canon(self.pool[cid]))
+        if cid in self.vmaps:
+            self.pristine_vmaps[cid] = core.jdump(canon(self.vmaps[cid]))
 
     def perform(self, op, k_valueof=None, measure=False):
         """Execute one call. -> record dict with canonical outcome."""
@@ -317,9 +419,15 @@ class _Env:
                 if "switches" in okw:
                     lb, flb, h3, seen = okw["switches"]
                     kw.update(use_lower_bound=lb, use_fast_lower_bound=flb, use_heuristic_3=h3, use_set_of_seen_states=seen)
-                for key in ("partition_difference", "iterations", "time_limit"):
+                for key in ("partition_difference", "iterations", "time_limit", "copies"):
                     if key in okw:
                         kw[key] = okw[key]
+                if "constraint" in okw:
+                    con = okw["constraint"]
+                    kw["additional_constraints"] = {
+                        "mineq": (lambda sums, c=con["c"]: [sums[0] == c]),
+                        "maxle": (lambda sums, c=con["c"]: [sums[-1] <= c]),
+                        "minge": (lambda sums, c=con["c"]: [sums[0] >= c])}[con["kind"]]
                 if fault.get("kind") == "clock":
                     kw["time_limit"] = fault["cut"] - 0.5
                 if fault.get("kind") == "solver":
@@ -410,7 +518,17 @@ def _child_run(plan, indices, kmap, measure):
     """Runs in a forked child: execute the given operation indices one after another in THIS interpreter."""
     env = _Env(plan)
     out = []
+    applied = 0          # edits with index < applied have been applied
     for idx in indices:
+        for e_i in range(applied, idx):
+            if plan["ops"][e_i]["op"] == "edit":
+                env.apply_edit(plan["ops"][e_i])
+        applied = max(applied, idx)
+        if plan["ops"][idx]["op"] == "edit":
+            env.apply_edit(plan["ops"][idx])
+            applied = idx + 1
+            out.append({"index": idx, "edit": True, "mutated": []})
+            continue
         op = _resolve(plan, idx)
         rec = env.perform(op, kmap.get(str(idx)), measure=measure)
         rec["index"] = idx
@@ -433,6 +551,8 @@ def _comparable(op, outcome):
 
 
 def _opkind(op):
+    if op["op"] == "edit":
+        return "edit"
     f = op.get("fault")
     return op.get("algo", "?") + ("!" + f["kind"] if f else "")
 
@@ -441,7 +561,7 @@ def _valid_plan(plan):
     ids = {c["id"] for c in plan["pool"]}
     for i, op in enumerate(plan["ops"]):
         if op["op"] == "repeat":
-            if not (0 <= op["of"] < i):
+            if not (0 <= op["of"] < i) or plan["ops"][op["of"]]["op"] == "edit":
                 return False
         elif op["pool"] not in ids:
             return False
@@ -470,33 +590,43 @@ def execute(plan, seed=0):
     n = len(ops)
     tr.add("plan", nops=n, pool=[(c["id"], c["form"], len(c["values"])) for c in plan["pool"]])
 
-    # 1. injected valueof failures are placed inside the count a fault-free run makes (measured in a fresh fork)
+    # 1. injected valueof failures are placed inside the count a fault-free run makes (measured in a fresh fork,
+    #    with the containers in the state they have at that point of the history)
     kmap = {}
     refs = {}
     base_idx = {}            # op index -> index of the underlying call (repeat resolved)
+    epoch = {}               # op index -> number of caller edits before it
+    ne = 0
     for i in range(n):
+        epoch[i] = ne
+        if ops[i]["op"] == "edit":
+            ne += 1
+            continue
         j = i
         while ops[j]["op"] == "repeat":
             j = ops[j]["of"]
         base_idx[i] = j
-    for j in sorted(set(base_idx.values())):
+    measured = {}
+    for i in sorted(base_idx):
+        j = base_idx[i]
         f = ops[j].get("fault") or {}
-        if f.get("kind") == "valueof":
+        if f.get("kind") != "valueof":
+            continue
+        key = (j, epoch[i])
+        if key not in measured:
             try:
-                m = call_in_fork(_child_run, (plan, [j], {}, True), timeout=CALL_WALL_WATCHDOG_S)[0]
+                m = call_in_fork(_child_run, (plan, [i], {}, True), timeout=CALL_WALL_WATCHDOG_S)[-1]
             except ChildFailure as e:
                 if "StepBudgetExceeded" in str(e):
                     res.discarded = "over_step_budget"
-                    tr.add("discard", why="step budget in measuring run", op=j)
+                    tr.add("discard", why="step budget in measuring run", op=i)
                     return res.finish(tr)
                 raise
             K = m["valueof_calls"] or 0
-            kmap[str(j)] = (1 + int(f["frac"] * K)) if K > 0 else 1
+            measured[key] = (1 + int(f["frac"] * K)) if K > 0 else 1
             if K == 0:
                 res.probe("valueof_fault_on_call_that_never_evaluates")
-    for i in range(n):
-        kmap[str(i)] = kmap.get(str(base_idx[i]))
-    kmap = {k: v for k, v in kmap.items() if v is not None}
+        kmap[str(i)] = measured[key]
 
     # 2. the history, in one interpreter
     try:
@@ -509,8 +639,9 @@ def execute(plan, seed=0):
         raise
 
     # 3. fresh-state reference for each distinct underlying call (one fork per call)
-    def reference(j):
-        return call_in_fork(_child_run, (plan, [j], kmap, False), timeout=CALL_WALL_WATCHDOG_S)[0]
+    def reference(i):
+        # the same operation alone in a fresh interpreter (caller edits that precede it are replayed first)
+        return call_in_fork(_child_run, (plan, [i], kmap, False), timeout=CALL_WALL_WATCHDOG_S)[-1]
 
     prev_kind = None
     used = set()
@@ -519,6 +650,16 @@ def execute(plan, seed=0):
     shape = []
     for rec in hist:
         i = rec["index"]
+        if rec.get("edit"):
+            tr.add("edit", i=i, op=ops[i])
+            res.probe("caller_edited_container_between_calls")
+            if prev_kind is not None:
+                res.cells.append("@pair:" + prev_kind + ">edit")
+            prev_kind = "edit"
+            prev_failed = False
+            prev_algo, prev_pool, prev_form = None, ops[i]["pool"], _form(plan, ops[i]["pool"])
+            shape.append("edit")
+            continue
         op = _resolve(plan, i)
         j = base_idx[i]
         res.evaluations += 1
@@ -549,20 +690,21 @@ def execute(plan, seed=0):
             tr.add("op", i=i, op=ops[i], outcome=rec["outcome"], mutated=rec["mutated"])
             break
         # oracle 2: same as in a fresh interpreter
-        if j not in refs:
-            refs[j] = reference(j)
-        ref = refs[j]
+        rkey = (j, epoch[i])
+        if rkey not in refs:
+            refs[rkey] = reference(i)
+        ref = refs[rkey]
         mine, fresh = _comparable(op, rec["outcome"]), _comparable(op, ref["outcome"])
         verdict = "same"
         if mine != fresh:
-            ref2 = reference(j)
+            ref2 = reference(i)
             if _comparable(op, ref2["outcome"]) != fresh:
                 res.note("unstable_reference")
                 verdict = "reference-unstable"
             else:
                 verdict = "differs"
                 res.violate("differs-from-fresh", step=i, op=op, in_history=_short(mine), fresh=_short(fresh),
-                            previous=[_opkind(_resolve(plan, x)) for x in range(max(0, i - 3), i)])
+                            previous=[_opkind(ops[x] if ops[x]["op"] == "edit" else _resolve(plan, x)) for x in range(max(0, i - 3), i)])
         elif op.get("algo") == "ilp" and "value" in rec["outcome"] and rec["outcome"]["value"] != ref["outcome"].get("value"):
             res.note("solver_alternative_optimum")
         # oracle 3: repeat equals the original
@@ -571,12 +713,14 @@ def execute(plan, seed=0):
             res.probe("repeat")
             if i - j >= 10:
                 res.probe("repeat_after_ge10_intervening_calls")
-            if first is not None and _comparable(op, first["outcome"]) != mine:
+            if epoch[i] != epoch[j]:
+                res.probe("repeat_after_caller_edit_not_compared_with_original")
+            elif first is not None and _comparable(op, first["outcome"]) != mine:
                 res.violate("repeat-differs", step=i, of=j, op=op, first=_short(_comparable(op, first["outcome"])), again=_short(mine))
         # probes
-        if prev_kind is not None and prev_failed and "exception" not in rec["outcome"] and prev_algo == op.get("algo") and prev_pool == op["pool"]:
+        if prev_kind not in (None, "edit") and prev_failed and "exception" not in rec["outcome"] and prev_algo == op.get("algo") and prev_pool == op["pool"]:
             res.probe("failed_call_then_same_algorithm_succeeds_on_same_container")
-        if prev_kind is not None and prev_form == "dict" and _form(plan, op["pool"]) == "dict" and prev_pool != op["pool"] and _names(plan, prev_pool) == _names(plan, op["pool"]):
+        if prev_kind not in (None, "edit") and prev_form == "dict" and _form(plan, op["pool"]) == "dict" and prev_pool != op["pool"] and _names(plan, prev_pool) == _names(plan, op["pool"]):
             res.probe("two_dicts_with_identical_keys_back_to_back")
         tr.add("op", i=i, op=ops[i], outcome=rec["outcome"], verdict=verdict, valueof_calls=rec["valueof_calls"], clock_reads=rec["clock_reads"])
         res.sim_seconds += rec["clock_reads"]
@@ -670,7 +814,7 @@ def shrink_candidates(plan, clause):
                 p["ops"] = ops[:i] + [dict(op, kwargs=kw)] + ops[i + 1:]
                 yield p
     # drop unused containers; shrink containers
-    used = {(_resolve(plan, i))["pool"] for i in range(n)}
+    used = {(ops[i] if ops[i]["op"] == "edit" else _resolve(plan, i))["pool"] for i in range(n)}
     if any(c["id"] not in used for c in plan["pool"]):
         p = dict(plan)
         p["pool"] = [c for c in plan["pool"] if c["id"] in used]
